@@ -397,21 +397,31 @@ Definition effective_max (g : graph) : nat :=
   else match g_max g with O => count_nodes (g_stages g) + 10 | m => m end.
 
 (* Streams between steps (schema/stream.go).  One output stream read by n >= 2 successors is
-   copied: the children share each element through a sync.Once, so when reading the source
-   panics the first child to get there panics and every other child finds a finished Once
-   with no element: it receives ErrRecvAfterClosed.  m >= 2 streams into one successor are
-   merged: convert readers and copy children are put behind forwarding goroutines (toStream)
-   whose recover turns a panic into an error item. *)
+   copied: the children share each element through a sync.Once.  When reading the source panics
+   (a convert function of the user), the element records the recovered panic as an error item
+   followed by the end of the stream (repair of F-C13d): every child finds the panic as an error
+   item, nobody panics.  m >= 2 streams into one successor are merged: convert readers and copy
+   children are put behind forwarding goroutines (toStream) whose recover turns a panic into an
+   error item. *)
 Definition is_lazy (it : item) : bool := match it with ILazy _ => true | _ => false end.
+
+Definition forwarded (it : item) : item :=
+  match it with ILazy i => IErr (PanicErr i) | _ => it end.
 
 Definition fanout (n : nat) (its : list item) : list item :=
   match n with
   | O | S O => its
-  | _ => its ++ (if existsb is_lazy its then [IErr (Leaf id_recv_closed)] else [])
+  | _ => map forwarded its
   end.
 
-Definition forwarded (it : item) : item :=
-  match it with ILazy i => IErr (PanicErr i) | _ => it end.
+(* before the repair of F-C13d the panic left the sync.Once finished without an element: the child
+   that got there first panicked, every other child found a zero chunk and then
+   ErrRecvAfterClosed on every later Recv *)
+Definition fanout_v3 (n : nat) (its : list item) : list item :=
+  match n with
+  | O | S O => its
+  | _ => its ++ (if existsb is_lazy its then [IErr (Leaf id_recv_closed)] else [])
+  end.
 
 Definition fanin (m : nat) (its : list item) : list item :=
   match m with
